@@ -19,6 +19,9 @@ import (
 type c23Outcome struct {
 	ok  bool
 	err *authw.ErrSpec
+	// withCtx: the failing link also returns a non-nil context (the error
+	// alone decides: "return a non-nil error to reject the request")
+	withCtx bool
 }
 
 func (o c23Outcome) String() string {
@@ -142,6 +145,10 @@ func C23(e *simkern.Env) {
 					return &vgirpc.AuthContext{Domain: fmt.Sprintf("d%d", i), Principal: fmt.Sprintf("p%d", i), Authenticated: true}, nil
 				}
 				sim.Fault(o.err.FaultKind())
+				if o.withCtx {
+					sim.Fault("auth-error-with-context")
+					return &vgirpc.AuthContext{Domain: fmt.Sprintf("d%d", i), Principal: "partial", Authenticated: true}, o.err.Build()
+				}
 				return nil, o.err.Build()
 			}
 		}
@@ -356,6 +363,9 @@ func C23(e *simkern.Env) {
 						default:
 							o.err = authw.Gen(tp, depth)
 						}
+						if !o.ok {
+							o.withCtx = tp.Bool(1, 4)
+						}
 						rq.outcomes = append(rq.outcomes, o)
 					}
 					ids := strconv.FormatInt(rq.id, 10)
@@ -416,7 +426,7 @@ func init() {
 		Stub:  []string{"authenticator links (outcome from the tape)", "HTTP transport (direct ServeHTTP call)", "token resolver", "scripted methods"},
 		Quick: 1600, Thorough: 120000,
 		Warm:       warmHTTP,
-		FaultKinds: []string{"auth-unavailable", "auth-failure", "auth-rpcerror", "auth-foreign-error"},
+		FaultKinds: []string{"auth-unavailable", "auth-failure", "auth-rpcerror", "auth-foreign-error", "auth-error-with-context"},
 		Assumptions: []string{
 			"the default Retry-After (5 s) is taken from the doc comments of AuthUnavailableError.RetryAfter / defaultAuthRetryAfterSeconds in auth.go (there is no separate specification document in the repository)",
 			"an AuthFailure reachable only through a multi-error (errors.Join or several %w: Unwrap() []error) is not decided by the statement's 'in the Unwrap chain': 401 and 500 are both accepted (a 401 must still be well-formed)",
